@@ -4,6 +4,7 @@
   (enq = accepted into the send queue, txd/handed = given to a peer, rin = read from a peer, rout = returned by Recv).
 -/
 import Model.Proto.PairLemmas
+import Model.Proto.PairQuiet
 import Model.Proto.PushLemmas
 import Model.Proto.PushQuiet
 import Model.Proto.PullLemmas
@@ -39,6 +40,16 @@ theorem pair_readmit (s : Pair.State) (p : String) (hp : s.peer = none) (hc : s.
   simp [Pair.step, hp, hc, Pair.settled]
 
 theorem pair_drop_clears_peer (s : Pair.State) : (Pair.dropPeer s).peer = none := rfl
+
+/-- PAIR over every history: nothing is left to do in any reachable state — an accepted message waits in the send queue
+    only while there is no peer or the peer's send is still in progress; a Send is blocked only while the queue has no
+    room for its message; a Recv is blocked only when nothing is queued, nothing is in the receiver's hand and nothing is
+    waiting to be read ("Send completes whenever a connected peer is able to take the message") -/
+theorem pair_nothing_left_to_do (s : Pair.State) (h : Pair.Reach s) :
+    (s.sendQ ≠ [] → s.peer = none ∨ s.inflight.isSome = true) ∧
+    (s.parkedSend ≠ [] → Pair.sendRoom s = false) ∧
+    (s.parkedRecv ≠ [] → s.recvQ = [] ∧ s.inhand = none ∧ (s.peer = none ∨ s.backlog = [])) :=
+  Pair.nothing_left_to_do s h
 
 /-- PUSH: messages handed to pipes (in hand-off order) followed by the queued ones are, in order, part of
     what was accepted; hence each accepted message goes to at most one pipe, and messages sharing a pipe
